@@ -1,5 +1,6 @@
 import PybropsModel.J
 import PybropsModel.Model.BVMat
+import PybropsModel.Model.BVMatSpec
 open Lean
 
 /-
@@ -36,29 +37,57 @@ def operand (j : Json) : J.R (Operand Rat) := do
   let kind ← J.field j "as" J.str
   if kind == "bv" then pure (.bv (fromNumpy sq c t)) else pure (.nd c t)
 
-def opOf (j : Json) : J.R (Op Rat) := do
+def optInt (j : Json) : J.R (Option Int) :=
+  match j with
+  | .null => .ok none
+  | _ => some <$> J.int j
+
+/-- the `obj` argument of numpy.delete / numpy.insert as the caller wrote it:
+    {"kind":"int","i":-1} | {"kind":"list","is":[…]} | {"kind":"slice","a":…,"b":…,"c":…} | {"kind":"mask","m":[…]} -/
+def delIdx (j : Json) : J.R LabelMat.DelIdx := do
+  match ← J.field j "kind" J.str with
+  | "int" => return .int (← J.field j "i" J.int)
+  | "list" => return .list (← J.field j "is" (J.list J.int))
+  | "slice" => return .slice (← J.fieldD j "a" optInt none) (← J.fieldD j "b" optInt none) (← J.fieldD j "c" optInt none)
+  | "mask" => return .mask (← J.field j "m" (J.list J.bool))
+  | other => J.fail s!"unknown index kind {other}"
+
+def insIdx (j : Json) : J.R LabelMat.InsIdx := do
+  match ← J.field j "kind" J.str with
+  | "int" => return .int (← J.field j "i" J.int)
+  | "list" => return .list (← J.field j "is" (J.list J.int))
+  | "slice" => return .slice (← J.fieldD j "a" optInt none) (← J.fieldD j "b" optInt none) (← J.fieldD j "c" optInt none)
+  | other => J.fail s!"unknown insert index kind {other}"
+
+def opOf (j : Json) : J.R (OpIx Rat) := do
   let name ← J.field j "op" J.str
+  let hasObj := (j.getObjVal? "obj").isOk
   match name with
-  | "select" => return .select (← J.field j "idx" (J.list J.nat))
-  | "delete" => return .delete (← J.field j "idx" (J.list J.nat))
-  | "reorder" => return .reorder (← J.field j "idx" (J.list J.nat))
-  | "remove" => return .remove (← J.field j "idx" (J.list J.nat))
-  | "insert" => return .insert (← J.field j "k" J.nat) (← J.field j "vals" operand)
-  | "incorp" => return .incorp (← J.field j "k" J.nat) (← J.field j "vals" operand)
-  | "adjoin" => return .adjoin (← J.field j "vals" operand)
-  | "append" => return .append (← J.field j "vals" operand)
+  | "select" => return .select (← J.field j "idx" (J.list J.int))
+  | "delete" =>
+      if hasObj then return .delete (← J.field j "obj" delIdx)
+      else return .plain (.delete (← J.field j "idx" (J.list J.nat)))
+  | "reorder" => return .plain (.reorder (← J.field j "idx" (J.list J.nat)))
+  | "remove" => return .plain (.remove (← J.field j "idx" (J.list J.nat)))
+  | "insert" =>
+      if hasObj then return .insert (← J.field j "obj" insIdx) (← J.field j "vals" operand)
+      else return .plain (.insert (← J.field j "k" J.nat) (← J.field j "vals" operand))
+  | "incorp" => return .plain (.incorp (← J.field j "k" J.nat) (← J.field j "vals" operand))
+  | "adjoin" => return .plain (.adjoin (← J.field j "vals" operand))
+  | "append" => return .plain (.append (← J.field j "vals" operand))
   | "concat" =>
       let os ← J.field j "others" (J.list (fun o => do
         let c ← J.field o "cols" cols
         let t ← J.field o "taxa" (J.list J.nat)
         pure (fromNumpy sq c t)))
-      return .concat os
+      return .plain (.concat os)
   | other => J.fail s!"unknown taxa op {other}"
 
 def errTag : Err → String
   | .shape => "value"
   | .index => "index"
   | .type => "type"
+  | .unsupported => "unsupported"
 
 /-! ### model snapshots -/
 
@@ -79,12 +108,15 @@ def snapshot (b : BV Rat) : Json :=
     ("targmin", J.ofList J.ofNat (tr.map targmin))]
 
 /-- snapshots after from_numpy and after each operation; stops at the first rejected operation -/
-def snapshots (needs : Bool) : List (Op Rat) → BV Rat → List Json
+def snapshots (needs : Bool) : List (OpIx Rat) → BV Rat → List Json
   | [], b => [snapshot b]
-  | op :: ops, b => snapshot b ::
-    match applyOp sq needs op b with
-    | .ok b' => snapshots needs ops b'
+  | o :: ops, b => snapshot b ::
+    match o.norm b.taxa.length with
     | .error e => [J.obj [("err", J.ofStr (errTag e))]]
+    | .ok op =>
+      match applyOp sq needs op b with
+      | .ok b' => snapshots needs ops b'
+      | .error e => [J.obj [("err", J.ofStr (errTag e))]]
 
 def opHistory : J.Op := fun j => do
   let c ← J.field j "cols" cols
@@ -95,22 +127,9 @@ def opHistory : J.Op := fun j => do
 
 /-! ### the Spec oracle -/
 
-structure Tol where
-  rel : Rat
-  abs : Rat
-
-def absR (q : Rat) : Rat := if q < 0 then -q else q
-def maxR (a b : Rat) : Rat := if a < b then b else a
-
-/-- tolerant equality; `mag` scales the absolute tolerance (magnitude of the data involved) -/
-def closeR (tol : Tol) (mag a b : Rat) : Bool :=
-  let d := absR (a - b)
-  d ≤ tol.abs * mag || d ≤ tol.rel * maxR (absR a) (absR b)
-
-def closeO (tol : Tol) (mag : Rat) : Option Rat → Option Rat → Bool
-  | none, none => true
-  | some a, some b => closeR tol mag a b
-  | _, _ => false
+abbrev Tol := Spec.Tol Rat
+def absR : Rat → Rat := Spec.absR
+def maxR : Rat → Rat → Rat := Spec.maxR
 
 /-- what the implementation showed for one matrix state -/
 structure ObsStep where
@@ -161,87 +180,13 @@ def obsStep (j : Json) : J.R ObsStep := do
 /-- magnitude of a raw column: 1 + max |x| -/
 def magOf (c : Col Rat) : Rat := (present c).foldl (fun m x => maxR m (absR x)) 0 + 1
 
-/-- "raw values reproduced, missing stays missing": entrywise -/
-def rawOk (tol : Tol) (mag : Rat) (truth obs : Col Rat) : Bool :=
-  truth.length == obs.length && (List.zip truth obs).all (fun p => closeO tol mag p.1 p.2)
-
-/-- "stored centred and scaled per trait (unit scale for constant traits)" for one column;
-    returns the failing sub-clause if any -/
-def standardisedCol (tol : Tol) (mag : Rat) (truth mat unsc : Col Rat) (loc scale : Option Rat) : Option String :=
-  let p := present truth
-  -- a trait without any value: the NaN-ignoring mean and deviation of nothing are NaN
-  if p.isEmpty then (if loc == none && scale == none && mat == truth then none else some "standardised") else
-  if mat.map Option.isNone != truth.map Option.isNone then some "standardised" else
-  let m := meanL p
-  let v := varL p
-  let pm := present mat
-  if !(closeO tol mag loc (some m)) then some "standardised" else
-  if v == 0 then
-    -- the unit-scale clause is about data the code could see to be constant: when the
-    -- implementation's own unscaled column is constant only up to rounding noise (left by earlier
-    -- steps of a history) it is not applicable
-    let exactConst := match present unsc with | a :: l => l.all (· == a) | [] => true
-    if !exactConst then none else
-    -- sub-case with its own name: the float mean of the (exactly constant) column is not the
-    -- constant itself, so nanstd is a rounding residue instead of 0.0
-    let name := if loc != (present unsc).head? then "standardised:constant:inexact_mean"
-                else "standardised:constant"
-    if scale != some 1 then some name
-    else if pm.all (fun x => absR x ≤ tol.abs * mag) then none else some name
-  else
-    match scale with
-    | none => some "standardised"
-    | some s =>
-      if !(0 < s && closeR tol 0 (s * s) v) then some "standardised" else
-      let sTol := tol.abs * 10 * (1 + mag / ratSqrt v)
-      if absR (meanL pm) ≤ sTol && absR (varL pm - 1) ≤ sTol then none else some "standardised"
-
-/-- a summary on the original scale equals that summary of the raw column.  For a column with
-    missing values either numpy convention is accepted (NaN-propagating or NaN-ignoring). -/
-def statOk (tol : Tol) (mag : Rat) (hasNaN : Bool) (propagating ignoring obs : Option Rat) : Bool :=
-  if hasNaN then closeO tol mag obs propagating || closeO tol mag obs ignoring
-  else closeO tol mag obs propagating
-
 def getO (l : List (Option Rat)) (j : Nat) : Option Rat := (l[j]?).join
 
-/-- failing statistic clauses of one column -/
-def statsCol (tol : Tol) (mag : Rat) (truth : Col Rat) (o : ObsStep) (j : Nat) : List String :=
-  let p := present truth
-  let hasNaN := truth.any Option.isNone
-  let dense? : Option (List Rat) := if hasNaN then none else some p
-  let prop (f : List Rat → Rat) : Option Rat := match dense? with | some (a :: l) => some (f (a :: l)) | _ => none
-  let ign (f : List Rat → Rat) : Option Rat := match p with | a :: l => some (f (a :: l)) | [] => none
-  let mx (l : List Rat) : Rat := match l with | a :: r => maxL a r | [] => 0
-  let mn (l : List Rat) : Rat := match l with | a :: r => minL a r | [] => 0
-  let chk (name : String) (f : List Rat → Rat) (obs : List (Option Rat)) : List String :=
-    if statOk tol mag hasNaN (prop f) (ign f) (getO obs j) then [] else [name]
-  let v : Rat := varL p
-  let const := !p.isEmpty && v == 0
-  let stdOk (obs : Option Rat) : Bool :=
-    match obs with
-    | none => hasNaN || p.isEmpty
-    | some s => !p.isEmpty && 0 ≤ s && (if v == 0 then s ≤ tol.abs * mag else closeR tol 0 (s * s) v)
-  let varOk (obs : Option Rat) : Bool :=
-    match obs with
-    | none => hasNaN || p.isEmpty
-    | some w => !p.isEmpty && (if v == 0 then absR w ≤ tol.abs * mag else closeR tol 0 w v)
-  -- an arg-extremum is right when the raw value at that position is extremal (ties and values
-  -- within rounding error of each other may resolve either way); with missing values numpy's
-  -- "first NaN" convention is accepted as well
-  let argOk (obs : Option Nat) (ext : List Rat → Rat) : Bool :=
-    match obs with
-    | none => false
-    | some i =>
-      (hasNaN && some i == firstNaN truth) ||
-      (match truth[i]?, p with
-       | some (some x), a :: l => closeR tol mag x (ext (a :: l))
-       | _, _ => false)
-  chk "stat:tmax" mx o.tmax ++ chk "stat:tmin" mn o.tmin ++
-  chk "stat:trange" (fun l => mx l - mn l) o.trange ++ chk "stat:tmean" meanL o.tmean ++
-  (if argOk o.targmax[j]? mx then [] else ["stat:targmax"]) ++
-  (if argOk o.targmin[j]? mn then [] else ["stat:targmin"]) ++
-  (if stdOk (getO o.tstd j) then [] else [if const then "stat:tstd:constant" else "stat:tstd"]) ++
-  (if varOk (getO o.tvar j) then [] else [if const then "stat:tvar:constant" else "stat:tvar"])
+/-- the observations of trait `j` -/
+def obsCol (o : ObsStep) (j : Nat) : Spec.ObsCol Rat :=
+  { mat := o.mat.getD j [], unscale := o.unscale.getD j [], loc := getO o.loc j, scale := getO o.scale j,
+    tmax := getO o.tmax j, tmin := getO o.tmin j, tmean := getO o.tmean j, trange := getO o.trange j,
+    tstd := getO o.tstd j, tvar := getO o.tvar j, targmax := o.targmax[j]?, targmin := o.targmin[j]? }
 
 def clauseOrder : List String :=
   ["raised", "nonfinite", "taxa", "raw", "standardised", "standardised:constant", "standardised:constant:inexact_mean",
@@ -257,12 +202,10 @@ def specStep (tol : Tol) (mags : List Rat) (truth : Raw Rat) (o : ObsStep) : Lis
   let fails : List String :=
     (if o.nonfinite then ["nonfinite"] else []) ++
     (if o.taxa == truth.2 then [] else ["taxa"]) ++
-    (if o.unscale.length == t && idx.all (fun j => rawOk tol (mags.getD j 1) (truth.1.getD j []) (o.unscale.getD j []))
-      then [] else ["raw"]) ++
-    (if o.mat.length == t && o.loc.length == t && o.scale.length == t then
-       idx.filterMap (fun j => standardisedCol tol (mags.getD j 1) (truth.1.getD j []) (o.mat.getD j []) (o.unscale.getD j []) (getO o.loc j) (getO o.scale j))
-     else ["standardised"]) ++
-    (if n == 0 || !o.hasStats then [] else (idx.map (fun j => statsCol tol (mags.getD j 1) (truth.1.getD j []) o j)).flatten)
+    (if o.unscale.length == t && o.mat.length == t && o.loc.length == t && o.scale.length == t then
+       (idx.map (fun j => Spec.specCol ratSqrt tol (mags.getD j 1) (n != 0 && o.hasStats)
+                            (truth.1.getD j []) (obsCol o j))).flatten
+     else ["raw", "standardised"])
   clauseOrder.filter (fun c => fails.contains c)
 
 /-- magnitudes (1 + max |x|) of the columns, never decreasing along a history: rounding errors are
@@ -271,7 +214,7 @@ def updMags (mags : List Rat) (r : Raw Rat) : List Rat :=
   r.1.zipIdx.map (fun ci => maxR (mags.getD ci.2 1) (magOf ci.1))
 
 /-- walk the history on the raw ground truth; one verdict per observed matrix state -/
-def specWalk (tol : Tol) : List Rat → List (Op Rat) → Raw Rat → List ObsStep → List Json
+def specWalk (tol : Tol) : List Rat → List (OpIx Rat) → Raw Rat → List ObsStep → List Json
   | _, _, _, [] => []
   | mags0, ops, r, o :: os =>
     let mags := updMags mags0 r
@@ -281,12 +224,15 @@ def specWalk (tol : Tol) : List Rat → List (Op Rat) → Raw Rat → List ObsSt
                        ("has_nan", J.ofBool (r.1.any (fun c => c.any Option.isNone)))]
     match ops with
     | [] => [here]
-    | op :: rest =>
-      match applyRaw op r with
-      | .ok r' => here :: specWalk tol mags rest r' os
-      | .error _ =>
-        -- the operation is not a valid request (shape / index): the property says nothing
-        [here, J.obj [("ok", J.ofBool true), ("fails", J.ofList J.ofStr []), ("invalid_op", J.ofBool true)]]
+    | o :: rest =>
+      -- an operation that is not a valid request (shape / index): the property says nothing
+      let invalid := [here, J.obj [("ok", J.ofBool true), ("fails", J.ofList J.ofStr []), ("invalid_op", J.ofBool true)]]
+      match o.norm r.2.length with
+      | .error _ => invalid
+      | .ok op =>
+        match applyRaw op r with
+        | .ok r' => here :: specWalk tol mags rest r' os
+        | .error _ => invalid
 
 def opSpec : J.Op := fun j => do
   let c ← J.field j "cols" cols
@@ -334,13 +280,13 @@ def opSpecScaled : J.Op := fun j => do
   let rs ← J.field o "rescale" traitsOf
   let ui ← J.field o "unscale_inplace" traitsOf
   let same (a b : List (Col Rat)) : Bool :=
-    a.length == b.length && (List.zip a b).all (fun p => rawOk tol (maxR (magOf p.1) (magOf p.2)) p.1 p.2)
+    a.length == b.length && (List.zip a b).all (fun p => Spec.rawOk tol (maxR (magOf p.1) (magOf p.2)) p.1 p.2)
   let fails : List String :=
     (if same x u then [] else ["roundtrip"]) ++
     (if same truth un1 then [] else ["rescale_raw"]) ++
     (if rs.length == t then idx.filterMap (fun k =>
         match rs[k]? with
-        | some r => (standardisedCol tol (magOf (truth.getD k [])) (truth.getD k []) r.mat (un1.getD k []) r.loc r.scale).map (fun s => "rescale_" ++ s)
+        | some r => (Spec.standardisedCol ratSqrt tol (magOf (truth.getD k [])) (truth.getD k []) r.mat (un1.getD k []) r.loc r.scale).map (fun s => "rescale_" ++ s)
         | none => some "rescale_standardised") else ["rescale_standardised"]) ++
     (if same truth (ui.map (·.mat)) && ui.all (fun r => r.loc == some 0 && r.scale == some 1) then []
      else ["unscale_inplace"])
